@@ -51,6 +51,45 @@ def closure_summary(f, path):
     return sorted((tuple(sorted(set(norm_cond(c) for c in s.conds))), show(norm(it.resolve(s, rv)))) for s, rv in res)
 
 
+def loop_elementwise(outs, src, item, wrap, cond=None, err=None):
+    """the unrolled shape of `for x in SRC { out.push(conv(x)) }`: for k = 0, 1, .. items the result is a fresh Vec with
+    conv(elem_i) pushed in order; with a fallible conversion the first failing element ends the loop with its error.
+    `item`, `cond`, `err` are format strings over the element term."""
+    SRC = "into_iter(%s)" % src
+    paths = dict((frozenset(c), r) for c, r in outs)
+    if len(paths) != len(outs):
+        return False
+    ks = 0
+    while frozenset([("next(%s, #%d)" % (SRC, i), "ok") for i in range(ks)] + [("next(%s, #%d)" % (SRC, ks), "fails")]
+                    + [(cond % ("elem%d(%s)" % (i, SRC)), "ok") for i in range(ks) if cond]) in paths:
+        ks += 1
+    if ks < 2:
+        return False
+    seen = 0
+    for k in range(ks):
+        conds = frozenset([("next(%s, #%d)" % (SRC, i), "ok") for i in range(k)] + [("next(%s, #%d)" % (SRC, k), "fails")]
+                          + [(cond % ("elem%d(%s)" % (i, SRC)), "ok") for i in range(k) if cond])
+        r = paths[conds]
+        chain = None
+        for base in ("Vec::new()", "Vec::with_capacity(Vec::len(%s))" % src):
+            c = base
+            for i in range(k):
+                c = "push(%s, %s)" % (c, item % ("elem%d(%s)" % (i, SRC)))
+            if r == wrap % c:
+                chain = c
+        if chain is None:
+            return False
+        seen += 1
+        if cond and k > 0:
+            # element k-1 fails after k-1 successes
+            ec = frozenset([("next(%s, #%d)" % (SRC, i), "ok") for i in range(k)] + [(cond % ("elem%d(%s)" % (i, SRC)), "ok") for i in range(k - 1)]
+                           + [(cond % ("elem%d(%s)" % (k - 1, SRC)), "fails")])
+            if paths.get(ec) != err % ("elem%d(%s)" % (k - 1, SRC)):
+                return False
+            seen += 1
+    return seen == len(paths)
+
+
 def run(res, f, tier):
     froms, tryfroms = [], []
     for d, b in f.bodies.items():
@@ -112,6 +151,8 @@ def run(res, f, tier):
                 cs = closure_summary(f, m.group(1))
                 want = [((), "Value::from<V>(e)")] if tag == "Vec" else [((), "tuple(String::from<K>(e0), Value::from<V>(e1))")]
                 good = cs == want
+            if not good and tag == "Vec":
+                good = loop_elementwise(outs, "x", "Value::from<V>(%s)", "Vec(%s)")
             ob(good, key, "From<%s> for Value must convert element-wise (into_iter().map(Into::into).collect()) into Value::%s: %s" % (src, tag, outs))
         else:
             ob(False, key, "From<%s> for Value: a conversion the specification does not know" % src, {"summary": outs})
@@ -160,6 +201,8 @@ def run(res, f, tier):
                                 # (key, val) -> val.try_into().map(|val| (key, val)) : the key is kept, failure propagates
                                 good = cs == sorted([((("V::try_from<Value>(e1)", "fails"),), "Err(V::try_from<Value>!err(e1))"),
                                                      ((("V::try_from<Value>(e1)", "ok"),), "Ok(tuple(e0, V::try_from<Value>!(e1)))")])
+                    if not good and want_tag == "Vec":
+                        good = loop_elementwise(outs, "x.0", "V::try_from<Value>!(%s)", "Ok(%s)", cond="V::try_from<Value>(%s)", err="Err(V::try_from<Value>!err(%s))")
                     ob(good, key, "TryFrom<Value> for %s must convert every element (early error) and keep keys: %s" % (dst, outs))
             else:
                 ob(False, key, "TryFrom<Value> for %s: a conversion the specification does not know" % dst)
